@@ -901,6 +901,14 @@ fn check_facts(n: &SyntaxNode, parent: Option<&SyntaxNode>, in_raw: bool, is_roo
             }
         }
     }
+    // PF23: a Parenthesized node has exactly one child besides parentheses, blanks and comments; pattern() returns it
+    if k == K::Parenthesized {
+        let body: Vec<_> = ch.iter().filter(|c| !matches!(c.kind(), K::LeftParen | K::RightParen | K::Space | K::LineComment | K::BlockComment)).collect();
+        let ok = body.len() == 1 && n.cast::<ast::Parenthesized>().is_some_and(|p| p.pattern().to_untyped().span() == body[0].span());
+        if !ok {
+            out.push(format!("PF23: Parenthesized with children {:?}", ch.iter().map(|c| c.kind()).collect::<Vec<_>>()));
+        }
+    }
     // PF13
     if matches!(k, K::Math | K::Markup) {
         for c in &ch {
